@@ -1,11 +1,12 @@
 #!/bin/bash
-# usage: tools/tryseed.sh Cxx [other props to run as well...]
+# usage: [SEED_DIR=/verif/seeded/Cxx-2] tools/tryseed.sh Cxx [other props to run as well...]
 # applies /verif/seeded/Cxx/patch.diff to /repo, runs the repository's suite, the demonstration and the checks, restores /repo
 id=$1; shift
+dir=${SEED_DIR:-/verif/seeded/$id}
 cd /repo && git diff --quiet || { echo "repo dirty"; exit 3; }
-git -C /repo apply /verif/seeded/$id/patch.diff || { echo "patch does not apply"; exit 3; }
+git -C /repo apply $dir/patch.diff || { echo "patch does not apply"; exit 3; }
 echo "== suite:"; python3 /verif/tools/baseline.py | tail -2
-echo "== demo:"; (cd /repo && PYTHONPATH=/repo timeout 600 /venv/bin/python /verif/seeded/$id/demo.py > /tmp/sc/demo_$id.out 2>&1; echo "demo exit $?"; tail -5 /tmp/sc/demo_$id.out)
+echo "== demo:"; (cd /repo && PYTHONPATH=/repo timeout 600 /venv/bin/python $dir/demo.py > /tmp/sc/demo_$id.out 2>&1; echo "demo exit $?"; tail -5 /tmp/sc/demo_$id.out)
 for p in $id "$@"; do
   echo "== check $p:"; (cd /verif && ./check $p 2>&1 | grep -v "^KNOWN-FINDING\|^NOTE\|WARNING" | tail -4)
 done
